@@ -40,7 +40,9 @@ RULE = ("witness family [start; bulk; crash inside next bulk at operation k torn
         "further acknowledged bulks (or the retry) before the start; class fault-crash: the process dies after any "
         "prefix of the failed unit's file operations (torn write, before the rollback, between its two truncations) "
         "with power-loss cuts, then start and further bulks; WaitIdle is called after every failed append (a hang is "
-        "reported after 12 s); on every real .meta file "
+        "reported after 12 s); class conc-fault: a concurrent group of 1-2 small bulks and one big bulk under a "
+        "file-size limit that every small block passes and the big bulk's docs (or meta) block exceeds in any lock "
+        "order, units and lock order read from the op log, then observe, start; on every real .meta file "
         "each block's Ext2 must equal the sum of the preceding Ext1 (ext_chain_ok). non-trivial = a crash, then an acknowledged bulk, then a start; "
         "distinct by history")
 
